@@ -8,12 +8,33 @@ use rspirv::dr::{self, Operand};
 fn mk(cs: &mut Cs, marker: &mut u32) -> dr::Instruction {
     *marker += 1;
     let m = *marker;
-    match cs.below(6) {
+    match cs.below(9) {
         0 => dr::Instruction::new(spirv::Op::Undef, Some(7), Some(m), vec![]),
         1 => dr::Instruction::new(spirv::Op::Name, None, None, vec![Operand::IdRef(m), Operand::LiteralString(cs.string())]),
         2 => dr::Instruction::new(spirv::Op::Nop, None, Some(m), vec![]),
         3 => dr::Instruction::new(spirv::Op::Constant, Some(3), Some(m), vec![Operand::LiteralBit64(cs.lit64())]),
         4 => dr::Instruction::new(spirv::Op::Label, None, Some(m), vec![]),
+        5 | 6 => {
+            // structural opcodes in ANY slot (the fields are public: nothing ties an opcode to
+            // the slot it is stored in)
+            let op = [
+                spirv::Op::Function,
+                spirv::Op::FunctionEnd,
+                spirv::Op::FunctionParameter,
+                spirv::Op::Label,
+                spirv::Op::Return,
+                spirv::Op::Branch,
+                spirv::Op::Kill,
+                spirv::Op::MemoryModel,
+                spirv::Op::Capability,
+                spirv::Op::Line,
+                spirv::Op::NoLine,
+                spirv::Op::Variable,
+                spirv::Op::TypeInt,
+                spirv::Op::ExtInstImport,
+            ][cs.below(14)];
+            dr::Instruction::new(op, None, Some(m), vec![])
+        }
         _ => dr::Instruction::new(spirv::Op::IAdd, Some(1), Some(m), vec![Operand::IdRef(cs.below(9) as u32), Operand::IdRef(2)]),
     }
 }
@@ -243,7 +264,7 @@ pub fn finish(ctx: &Ctx) -> i32 {
     crate::engine::finish(
         ctx,
         Finish {
-            rule: "dr::Module values built directly from the public fields: header / memory model / function def / end / block label each present or absent, every section with 0-3 instructions, 0-3 functions x 0-3 blocks; every instruction carries a unique marker id and a varying word count. Oracle: own traversal written from the field list; all_inst_iter equals it; global_inst_iter is the prefix before the first function; Function::all_inst_iter is the k-th slice; each _mut traversal visits the same sequence and a mutation through it is seen by the read-only one at the same position; assemble() == header words ++ concat(assemble of each visited instruction) and tiles by word counts. non-trivial = module with >= 1 function and >= 6 instructions; distinct = hash of the assembled words.",
+            rule: "dr::Module values built directly from the public fields: header / memory model / function def / end / block label each present or absent, every section with 0-3 instructions, 0-3 functions x 0-3 blocks; every instruction carries a unique marker id and a varying word count; a quarter of the instructions carry a structural opcode (OpFunction, OpFunctionEnd, OpLabel, terminators, OpMemoryModel, OpLine ...) in whatever slot they happen to be stored; a third of the modules are sparse (most sections empty). Oracle: own traversal written from the field list; all_inst_iter equals it; global_inst_iter is the prefix before the first function; Function::all_inst_iter is the k-th slice; each _mut traversal visits the same sequence and a mutation through it is seen by the read-only one at the same position; assemble() == header words ++ concat(assemble of each visited instruction) and tiles by word counts. non-trivial = module with >= 1 function and >= 6 instructions; distinct = hash of the assembled words.",
             assumptions: vec![],
             trusted_base: vec!["own field-order traversal".into(), "proptest".into()],
         },
